@@ -18,6 +18,7 @@ fn main() {
     let code = match args[1].as_str() {
         "check" => props::check_cmd(&args[2..]),
         "selftest" => props::selftest(),
+        "tools-worker" => engines::tools::worker(std::path::Path::new(&args[2]), std::path::Path::new(&args[3])),
         "sched-probe" => props::sched_probe(),
         "sched-debug" => props::sched_debug(&args[2]),
         "sched-trace" => props::sched_trace(&args[2]),
@@ -26,6 +27,8 @@ fn main() {
             2
         }
     };
-    let _ = std::fs::remove_dir_all(world::scratch_root());
+    if args[1] != "tools-worker" {
+        let _ = std::fs::remove_dir_all(world::scratch_root());
+    }
     std::process::exit(code);
 }
